@@ -193,3 +193,19 @@ Proof. revert l. induction n; intros [|x l] y Hy; cbn in *; try assumption. righ
 
 Definition transpose {A} (dflt : A) (n : nat) (cols : list (list A)) : list (list A) :=
   map (fun i => map (fun c => nth i c dflt) cols) (seq 0 n).
+
+Lemma last_In {A} (l : list A) d : l <> [] -> In (last l d) l.
+Proof.
+  induction l as [|a l IH]; intro H; [congruence|]. destruct l as [|b l']; [now left|].
+  right. apply IH. discriminate.
+Qed.
+
+Lemma map_fst_combine_eq {A B} (a : list A) (b : list B) : length a = length b -> map fst (combine a b) = a.
+Proof. revert b. induction a as [|x a IH]; intros [|y b] H; cbn in *; try discriminate; [reflexivity|]. f_equal. apply IH. lia. Qed.
+
+Lemma nth_error_last {A} (l : list A) d : l <> [] -> nth_error l (length l - 1) = Some (last l d).
+Proof.
+  induction l as [|a l IH]; intro H; [congruence|]. destruct l as [|b l']; [reflexivity|].
+  cbn [length]. replace (S (S (length l')) - 1) with (S (length (b :: l') - 1)) by (cbn; lia).
+  cbn [nth_error]. rewrite IH by discriminate. reflexivity.
+Qed.
